@@ -63,7 +63,7 @@ def _net(rng, free=False):
 
 def cases(seed, tier):
     rng = random.Random(f"C06:{seed}")
-    n = 2500 if tier == "quick" else 120000
+    n = 5000 if tier == "quick" else 120000
     out = []
     # corpus: regime-complete by construction
     out.append({"kind": "witness_e"})
